@@ -54,7 +54,7 @@ CLAIMS = {
         "technique": _K + "symbolic operation histories and symbolic iteration index, concrete seeds",
     },
     "C13": {
-        "text": 'Solver verdict for the iteration-budget clause on the round-robin scheduler (budgets 0..=3: exactly budget executions, then None forever), the replay scheduler (exactly one) and DFS on a choice-free body (None / Some(0..=3)); and for the step-count arithmetic: the bound comparison trips exactly when the steps (decisions plus draws) since the last reset reach the bound, for every usize bound, and reset_step_count restarts the count at zero. What the runtime does when the comparison trips, the Runner loop and the time limit are not covered.',
+        "text": 'Solver verdict for the iteration-budget clause on the round-robin scheduler (budgets 0..=3: exactly budget executions, then None forever), the replay scheduler (exactly one) and DFS on a choice-free body (None / Some(0..=3)); and for the step-count arithmetic: the bound comparison trips exactly when the steps (decisions plus draws) since the last reset reach the bound, for every usize bound, reset_step_count restarts the count at zero, and ExecutionState::schedule reacts to a reached bound as configured (FailAfter: step-bound error; ContinueAfter: execution marked Stopped, no error; below the bound or without one: on to the scheduling decision). How the error / the Stopped mark are turned into a panic message or a silent end, the Runner loop and the time limit are not covered.',
         "note": "the random scheduler's budget is asserted by the C10 check; PCT / URW budgets are outside; ExecutionState::schedule's reaction (FailAfter / ContinueAfter) is outside (engine-level harness exceeds the solver).",
         "technique": _K + 'symbolic budget, unrolled call sequence; symbolic reset point, schedule lengths and bound',
     },
